@@ -22,7 +22,7 @@ def rows? (s : String) : Option (List Row) := do (← matrix? s).mapM rowOfList
 def cRows (rows : List Row) : String := cMatrix (rows.map Row.toList)
 
 def report (I : Inst) (x : List Int) (rows : List Row) (k : Int) : String :=
-  s!"rows={cRows rows} nbins={k} feas={feasibleB I (rows.take x.length) k} valid={decide I.Valid} sperm={decide (SignedPermOf I x)}"
+  s!"rows={cRows rows} nbins={k} feas={if k > rows.length then false else feasibleB I (rows.take x.length) k} valid={decide I.Valid} sperm={decide (SignedPermOf I x)}"
 
 def handle (op rest : String) : Option String :=
   match op, fields rest with
@@ -49,7 +49,11 @@ def handle (op rest : String) : Option String :=
       let I ← inst? wh items
       let rows ← rows? rows
       match ← ints? k with
-      | [k] => pure s!"feas={feasibleB I rows k} valid={decide I.Valid}"
+      | [k] =>
+        -- `Feasible` implies `k ≤ rows.length` (`Ibl.bins_le_rows`): guard the decision procedure, which
+        -- materialises `List.range k`, against absurd bin counts of a broken implementation
+        let f := if k > rows.length then false else feasibleB I rows k
+        pure s!"feas={f} valid={decide I.Valid}"
       | _ => none
   | _, _ => none
 end Drv.C01
